@@ -326,3 +326,10 @@ def structures(ctx, kinds=("corpus", "moved", "jitter", "reversed", "thin", "thi
                 if spare and i % 3 == rng.randrange(3):
                     gone[id(r)] = rng.choice(spare)
             yield name, "thin-base", geo.rebuild(base, keep_res=lambda i, r: True, keep_atom=lambda r, a: gone.get(id(r)) != a.name)
+        if "base-only" in kinds:
+            # backbone gone: every fourth residue keeps its base atoms and C1' only (a model built from bases, a residue whose sugar
+            # and phosphate were not resolved); it still has a base normal, a glycosidic torsion partner atom and all its base contacts
+            from . import chem
+            off = rng.randrange(4)
+            keep = {id(r): set(chem.BASE_ATOMS.get(r.one_letter_name, [])) | {"C1'"} for i, r in enumerate(base.residues) if i % 4 == off}
+            yield name, "base-only", geo.rebuild(base, keep_res=lambda i, r: True, keep_atom=lambda r, a: id(r) not in keep or a.name in keep[id(r)])
